@@ -35,6 +35,7 @@ import (
 	"runtime"
 	"sort"
 	"sync"
+	"sync/atomic"
 	"time"
 
 	"github.com/containerd/stargz-snapshotter/cache"
@@ -110,7 +111,7 @@ func (vr *VerifiableReader) VerifyTOC(tocDigest digest.Digest) (Reader, error) {
 	if actual := vr.r.r.TOCDigest(); actual != tocDigest {
 		return nil, fmt.Errorf("invalid TOC JSON %q; want %q", actual, tocDigest)
 	}
-	vr.r.verify = true
+	vr.r.verify.Store(true)
 	return vr.r, nil
 }
 
@@ -350,7 +351,7 @@ type reader struct {
 	closed   bool
 	closedMu sync.Mutex
 
-	verify   bool
+	verify   atomic.Bool // set by VerifyTOC, possibly while reads of an already mounted layer are in flight
 	verifier func(uint32, string) (digest.Verifier, error)
 }
 
@@ -843,7 +844,7 @@ func (gr *reader) verifyAndCache(entryID uint32, ip []byte, chunkDigestStr strin
 }
 
 func (gr *reader) verifyChunk(id uint32, p []byte, chunkDigestStr string) error {
-	if !gr.verify {
+	if !gr.verify.Load() {
 		return nil // verification is not required
 	}
 	v, err := gr.verifier(id, chunkDigestStr)
